@@ -54,6 +54,8 @@ var c04Check = &impCheck{
 			aliases: []string{"f", ".", "_"}, prefixes: []string{"pkg"}, maxRefs: 3, freeRefs: 2, wrappers: allWrappers, anon: true, extra: true, bigHints: c04BigHints, oneDict: true},
 		{name: "local", ctors: []string{"NewFilePath", "NewFilePathName"}, local: "a.b/c", paths: []string{"a.b/c", "a.b/c/x", "fmt", "a.b/c/"}, names: map[string]string{"a.b/c/x": "x"}, canon: []string{"a.b/c/x", "a.b/c"},
 			aliases: []string{"."}, prefixes: []string{"pkg"}, maxRefs: 3, freeRefs: 3, wrappers: allWrappers, anon: true, extra: true},
+		{name: "testpath", ctors: []string{"NewFilePath", "NewFilePathName"}, local: "a.b/c_test", paths: []string{"a.b/c_test", "a.b/c", "fmt"}, names: map[string]string{"a.b/c": "c"},
+			aliases: []string{"."}, prefixes: []string{"pkg"}, maxRefs: 3, freeRefs: 3, wrappers: []int{0, imp.WrapperIndex("dictvalue")}, anon: true, extra: true},
 		{name: "cgo", ctors: []string{"NewFile"}, paths: []string{"C", "fmt", "a/c"}, names: map[string]string{"a/c": "c"},
 			aliases: []string{"c"}, prefixes: []string{"pkg"}, maxRefs: 3, freeRefs: 3, wrappers: []int{0, imp.WrapperIndex("dictkey-nullvalue")}, anon: true, extra: true,
 			preambleOpts: [][]string{nil, {"#include <a.h>"}, {"#include <a.h>", "int x;\nint y;"}}},
